@@ -190,6 +190,8 @@ func (o c18Op) String() string {
 		return fmt.Sprintf("%s(%d)", o.Op, o.R)
 	case "seek":
 		return fmt.Sprintf("seek(%d)+%dnext", o.R, o.N)
+	case "cmulti":
+		return fmt.Sprintf("one-cursor[%s seek-target %d]", strings.Join(c18Moves(o.N), ","), o.R)
 	}
 	return o.Op
 }
@@ -197,6 +199,9 @@ func (o c18Op) String() string {
 func c18Beacon(round uint64, variant int) *common.Beacon {
 	sig := []byte(fmt.Sprintf("sig-%d-v%d", round, variant))
 	prev := []byte(fmt.Sprintf("prev-%d-v%d", round, variant))
+	if variant == 2 {
+		prev = nil // as round 0 of a chained chain, or any beacon of an unchained one
+	}
 	return &common.Beacon{Round: round, Signature: sig, PreviousSig: prev}
 }
 
@@ -353,6 +358,62 @@ func (c *c18Checker) apply(o c18Op) {
 			c.expectNone("cursor-next-after-last", b, err)
 			return nil
 		})
+	case "cmulti":
+		// several moves of ONE cursor: every answer must be the stored beacon of the position reached, whatever the
+		// cursor returned before
+		_ = c.store.Cursor(ctx, func(ctx context.Context, cur chain.Cursor) error {
+			pos, positioned := uint64(0), false
+			for _, mv := range c18Moves(o.N) {
+				ks := c.ref.keys()
+				switch mv {
+				case "first":
+					b, err := cur.First(ctx)
+					if len(ks) == 0 {
+						c.expectNone("cursor-first", b, err)
+						return nil
+					}
+					c.expectAt("cursor-first/moved-cursor", ks[0], b, err)
+					pos, positioned = ks[0], true
+				case "last":
+					b, err := cur.Last(ctx)
+					if len(ks) == 0 {
+						c.expectNone("cursor-last", b, err)
+						return nil
+					}
+					c.expectAt("cursor-last/moved-cursor", ks[len(ks)-1], b, err)
+					pos, positioned = ks[len(ks)-1], true
+				case "seek":
+					b, err := cur.Seek(ctx, o.R)
+					if _, ok := c.ref.m[o.R]; ok {
+						c.expectAt("cursor-seek-stored/moved-cursor", o.R, b, err)
+						pos, positioned = o.R, true
+					} else {
+						c.expectLabelled("cursor-seek-absent", b, err)
+						k, ok := c.ref.ceil(o.R)
+						if c.b.Kind == "memdb" || !ok {
+							return nil // position undefined from here on
+						}
+						pos, positioned = k, true
+					}
+				case "next":
+					if !positioned {
+						return nil
+					}
+					b, err := cur.Next(ctx)
+					k, ok := c.ref.after(pos)
+					if !ok {
+						c.expectNone("cursor-next", b, err)
+						return nil
+					}
+					c.expectAt("cursor-next/moved-cursor", k, b, err)
+					pos = k
+				}
+				if c.bad {
+					return nil
+				}
+			}
+			return nil
+		})
 	case "seek":
 		_ = c.store.Cursor(ctx, func(ctx context.Context, cur chain.Cursor) error {
 			b, err := cur.Seek(ctx, o.R)
@@ -389,6 +450,22 @@ func (c *c18Checker) apply(o c18Op) {
 	}
 }
 
+// c18Moves: the move sequence number n of a multi-move cursor operation.
+func c18Moves(n int) []string {
+	seqs := [][]string{
+		{"last", "first", "next"},
+		{"seek", "first", "next"},
+		{"last", "seek", "next"},
+		{"first", "last", "first"},
+		{"seek", "last", "first", "next", "next"},
+		{"first", "next", "first"},
+	}
+	if n < 0 {
+		n = -n
+	}
+	return seqs[n%len(seqs)]
+}
+
 func c18Alphabet(maxRound uint64) []c18Op {
 	var ops []c18Op
 	for r := uint64(0); r <= maxRound; r++ {
@@ -397,7 +474,8 @@ func c18Alphabet(maxRound uint64) []c18Op {
 	for r := uint64(0); r <= maxRound+1; r++ {
 		ops = append(ops, c18Op{Op: "seek", R: r, N: 2})
 	}
-	ops = append(ops, c18Op{Op: "last"}, c18Op{Op: "len"}, c18Op{Op: "scan"}, c18Op{Op: "clast"})
+	ops = append(ops, c18Op{Op: "last"}, c18Op{Op: "len"}, c18Op{Op: "scan"}, c18Op{Op: "clast"},
+		c18Op{Op: "cmulti", N: 0}, c18Op{Op: "cmulti", N: 1, R: 2}, c18Op{Op: "cmulti", N: 2, R: 1})
 	return ops
 }
 
@@ -522,8 +600,10 @@ func TestVF_C18_Random(t *testing.T) {
 						o = c18Op{Op: "len"}
 					case x < 80:
 						o = c18Op{Op: "scan"}
-					case x < 95:
+					case x < 90:
 						o = c18Op{Op: "seek", R: r, N: rng.Range(0, 5)}
+					case x < 96:
+						o = c18Op{Op: "cmulti", R: r, N: rng.Intn(6)}
 					default:
 						o = c18Op{Op: "clast"}
 					}
